@@ -8,7 +8,8 @@ RULE = p_c01.RULE.replace("distinct_nontrivial = distinct histories in which an 
                           "Every DiscoveryRequest the in-memory stream receives is recorded (type, version, nonce, sorted names, error detail, node id) and the "
                           "interest sets are read back after every operation; reconnects are included. distinct_nontrivial = distinct histories with at least three "
                           "requests whose name lists differ")
-ASSUMPTIONS = p_c01.ASSUMPTIONS + ["evictions (interest shrinking) are exercised by C19's real sweeps, not here",
+ASSUMPTIONS = p_c01.ASSUMPTIONS + ["in the reconnect-window scenarios the request log is not compared with the sequential model (the sender's select between the queued request and the new stream is a coin flip); only the interest sets, the cache, the lookups and the quiescence clause are",
+                                   "evictions (interest shrinking) are exercised by C19's real sweeps, not here",
                                    "concurrent callers are reduced to atomic steps (each runs under c.mu: C07)"]
 
 
@@ -26,11 +27,28 @@ class Part(p_c01.Part):
             dict(base, ops=[{"op": "block_send"}, {"op": "lookup", "rt": "eds", "name": "e-first"}, {"op": "lookup", "rt": "cds", "name": "c-x"},
                             {"op": "burst_unblock", "rt": "eds", "names": names}, {"op": "lookup", "rt": "rds", "name": "rc-a"}]),
         ]
-        return fixed + cases
+        # an interest change in the window between the receiver's reconnect and the sender's switch to the new stream
+        # (the sender is held in a Send on the dying stream, the stream fails, THEN a lookup misses, then the sender is
+        # released).  Which of the two ready channels the sender's select takes first is a coin flip, so the request of
+        # the lookup may go out on the old or on the new stream: the request log of these cases is not compared with
+        # the (sequential) model ("loose_wire"); the specification is: once the sender is released, the last request of
+        # every subscribed type on the live stream lists the interest set.  Each shape is run several times.
+        window = []
+        for rep in range(4 if tier == "quick" else 12):
+            for t1, held, new in (("cds", "eds", "cds"), ("eds", "cds", "eds"), ("rds", "cds", "rds"), ("cds", "rds", "eds")):
+                ops = [{"op": "lookup", "rt": t1, "name": "w-1"}, {"op": "lookup", "rt": new, "name": "w-2"},
+                       {"op": "block_send"}, {"op": "lookup", "rt": held, "name": "held-%d" % rep},
+                       {"op": "recverr", "auth": False, "connectfail": 0, "nowait": True}]
+                ops += [{"op": "lookup", "rt": new, "name": "late-%d" % i} for i in range(1 + rep % 2)]
+                ops += [{"op": "unblock_send"}, {"op": "lookup", "rt": t1, "name": "w-1"}]
+                window.append(dict(base, ops=ops, loose_wire=True))
+        return fixed + window + cases
 
     @staticmethod
     def PROJECT(v, c, o):
         (cache, lookup, reqs, watched, acks, table, closed, s1, s2, s3, s4, s10, s19, sfull) = v
+        if c.get("loose_wire"):
+            return (watched and cache and lookup, s3)
         return (reqs and watched, s3)
 
     @classmethod
